@@ -63,6 +63,115 @@ Example C20_nonvacuous :
          {| f_start := 26; f_len := 6; f_addr := 4122; f_nul := false |} ].
 Proof. vm_compute. reflexivity. Qed.
 
+(* ---- declarative characterisation (audit: the split [runs] is itself a scanner; the two theorems above allow
+   gaps and give no left-maximality and no coverage).  Spec/RunsDecl.v defines, position by position over the bytes
+   and without any scanner, what a maximal printable run IS:
+     is_maximal_run bs s l t := 0 < l, every byte of [s, s+l) is printable, s = 0 or byte s-1 is not printable,
+                                and byte s+l is the end of the buffer (TEnd), a NUL (TNul) or another
+                                non-printable byte (TOther);
+     is_empty_run bs s t     := byte s is not printable (kind t) and s = 0 or byte s-1 is not printable
+                                (these only matter for a threshold of 0);
+     meets c l t             := the threshold rule;  item base s l t := the reported record.
+   The theorems below state both directions against these definitions. ---- *)
+From Coq Require Import Sorted.
+From PV.Spec Require Import RunsDecl.
+From PV.Proofs Require StringsDecl.
+
+(* soundness: every non-empty element of the split is a maximal printable run (left AND right maximal) with its terminator kind *)
+Theorem C20_runs_sound_maximal : forall bs r, In r (runs bs) -> 0 < r_len r ->
+  is_maximal_run bs (r_start r) (r_len r) (r_term r).
+Proof. exact StringsDecl.runs_sound_maximal. Qed.
+Print Assumptions C20_runs_sound_maximal.
+
+(* and every empty element sits at a non-printable byte with nothing printable directly before it *)
+Theorem C20_runs_sound_empty : forall bs r, In r (runs bs) -> r_len r = 0 -> is_empty_run bs (r_start r) (r_term r).
+Proof. exact StringsDecl.runs_sound_empty. Qed.
+Print Assumptions C20_runs_sound_empty.
+
+(* completeness: every maximal printable run of the byte string is listed by the split *)
+Theorem C20_runs_complete : forall bs s l t, is_maximal_run bs s l t ->
+  In {| r_start := s; r_len := l; r_term := t |} (runs bs).
+Proof. exact StringsDecl.runs_complete_maximal. Qed.
+Print Assumptions C20_runs_complete.
+
+Theorem C20_runs_complete_empty : forall bs s t, is_empty_run bs s t ->
+  In {| r_start := s; r_len := 0; r_term := t |} (runs bs).
+Proof. exact StringsDecl.runs_complete_empty. Qed.
+Print Assumptions C20_runs_complete_empty.
+
+(* both directions in one line *)
+Theorem C20_runs_exact : forall bs s l t, 0 < l ->
+  (In {| r_start := s; r_len := l; r_term := t |} (runs bs) <-> is_maximal_run bs s l t).
+Proof. exact StringsDecl.runs_exact. Qed.
+Print Assumptions C20_runs_exact.
+
+(* each exactly once, in ascending order with no overlap: every run starts after the terminator position of every earlier one *)
+Theorem C20_runs_sorted : forall bs, StronglySorted run_lt (runs bs).
+Proof. exact StringsDecl.runs_sorted. Qed.
+Print Assumptions C20_runs_sorted.
+Theorem C20_runs_NoDup : forall bs, NoDup (runs bs).
+Proof. exact StringsDecl.runs_NoDup. Qed.
+Print Assumptions C20_runs_NoDup.
+
+(* tiling: every position of the buffer is accounted for by exactly one listed run -
+   a printable byte lies inside exactly one, a non-printable byte terminates exactly one; nothing is skipped *)
+Theorem C20_runs_tiling : forall bs k, k < lenN bs ->
+  if printable (byte_at bs k)
+  then exists r, In r (runs bs) /\ r_start r <= k /\ k < r_start r + r_len r /\
+         forall r', In r' (runs bs) -> r_start r' <= k -> k < r_start r' + r_len r' -> r' = r
+  else exists r, In r (runs bs) /\ r_start r + r_len r = k /\ r_term r <> TEnd /\
+         forall r', In r' (runs bs) -> r_start r' + r_len r' = k -> r' = r.
+Proof. exact StringsDecl.runs_tiling. Qed.
+Print Assumptions C20_runs_tiling.
+
+(* the declarative notion is unambiguous: two maximal runs that share a position are the same run *)
+Theorem C20_maximal_run_overlap : forall bs s l t s' l' t' k,
+  is_maximal_run bs s l t -> is_maximal_run bs s' l' t' ->
+  s <= k -> k < s + l -> s' <= k -> k < s' + l' -> s = s' /\ l = l' /\ t = t'.
+Proof. exact StringsDecl.maximal_run_overlap. Qed.
+Print Assumptions C20_maximal_run_overlap.
+
+(* THE ENUMERATOR against the declarative notion (does not mention [runs]).  For every byte string, every base and
+   every configuration with thresholds of at least 1 (the documented range): iteration terminates, and the reported
+   items are exactly the items of the maximal printable runs that meet the threshold rule -
+   nothing else (->), none missed (<-), each once (NoDup), ascending without overlap (StronglySorted found_lt). *)
+Theorem C20_enumerate_exact : forall c base bs, 1 <= min_len c -> 1 <= min_len_nul c -> exists fs,
+  enumerate c base bs = Ok fs /\
+  (forall f, In f fs <-> reported_maximal c base bs f) /\
+  StronglySorted found_lt fs /\ NoDup fs.
+Proof. exact StringsDecl.enumerate_exact. Qed.
+Print Assumptions C20_enumerate_exact.
+
+(* the same for all thresholds including 0, where the empty runs in front of non-printable bytes qualify as well *)
+Theorem C20_enumerate_exact_general : forall c base bs, exists fs,
+  enumerate c base bs = Ok fs /\
+  (forall f, In f fs <-> reported c base bs f) /\
+  StronglySorted found_lt fs /\ NoDup fs.
+Proof. exact StringsDecl.enumerate_exact_general. Qed.
+Print Assumptions C20_enumerate_exact_general.
+
+(* that description leaves no freedom: ANY ascending list whose elements are exactly the reported items is the output *)
+Theorem C20_enumerate_determined : forall c base bs fs, StronglySorted found_lt fs ->
+  (forall f, In f fs <-> reported c base bs f) -> enumerate c base bs = Ok fs.
+Proof. exact StringsDecl.enumerate_determined. Qed.
+Print Assumptions C20_enumerate_determined.
+
+(* no reported string reaches outside the buffer or contains a byte outside the printable set *)
+Theorem C20_reported_printable : forall c base bs f, reported c base bs f ->
+  f_start f + f_len f <= lenN bs /\
+  forall k, f_start f <= k -> k < f_start f + f_len f -> printable (byte_at bs k) = true.
+Proof. exact StringsDecl.reported_printable. Qed.
+Print Assumptions C20_reported_printable.
+
+(* non-vacuity of the declarative notions: the buffer 1F 'C' '-' 00 'A' has exactly the maximal runs (1,2,NUL) and (4,1,End);
+   a run that could be extended to the right, one that could be extended to the left and one with the wrong terminator kind are rejected *)
+Example C20_decl_nonvacuous :
+  let bs := [31; 67; 45; 0; 65] in
+  is_maximal_run bs 1 2 TNul /\ is_maximal_run bs 4 1 TEnd /\ is_empty_run bs 0 TOther /\
+  ~ is_maximal_run bs 1 1 TOther /\ ~ is_maximal_run bs 2 1 TNul /\ ~ is_maximal_run bs 1 2 TOther /\
+  (forall s l t, is_maximal_run bs s l t -> (s, l, t) = (1, 2, TNul) \/ (s, l, t) = (4, 1, TEnd)).
+Proof. exact StringsDecl.decl_nonvacuous. Qed.
+
 (* ---- leaf functions regenerated from the source on every run (tools/gen_leaf.py -> gen/Leaf.v): agreement with the hand-written model ---- *)
 (* src/strings.rs is_printable_ascii, regenerated from the source on every run, is the model's byte test for every u8 and
    cannot panic (the shift count is below 32 on the branch that shifts) *)
